@@ -33,6 +33,7 @@ class Extractor:
         self.done = {}        # cname -> dict(text, proto, callees, lambdas, instances)
         self.specs = specs or {}   # cname -> spec path (or dict)
         self.ctx = Ctx(self.resolve_free, self.resolve_method, devchecks=(cfg == 'devchecks'))
+        self.ctx.extractor = self
         self.by_name = {}
         for c, r in R.items():
             self.by_name.setdefault(r['name'], []).append(c)
